@@ -97,6 +97,7 @@ func worldC11(w *World) {
 		nSess += k
 	}
 	pauses := []time.Duration{0, 0, time.Millisecond, 100 * time.Millisecond, 21 * time.Second}
+	bigPost := false
 	sess := make([]*c11Sess, nSess)
 	for si := range sess {
 		ss := &c11Sess{idx: si, browser: owner[si]}
@@ -115,6 +116,16 @@ func worldC11(w *World) {
 			}
 			ss.batches = append(ss.batches, ss.cmsgs[i:i+k])
 			i += k
+		}
+		if !ss.backendCloses && t.Rare(1, 15, "bigpost") && !sim.RaceEnabled {
+			// one data post well above 2 MiB: a few large binary messages sent together
+			var big []wsMsg
+			for k := 0; k < 3; k++ {
+				big = append(big, wsMsg{Binary: true, Data: append([]byte(fmt.Sprintf("c%d-big%d:", si, k)), t.Sub("bigbin").Bytes(600000)...)})
+			}
+			ss.cmsgs = append(ss.cmsgs, big...)
+			ss.batches = append(ss.batches, ss.cmsgs[len(ss.cmsgs)-3:])
+			bigPost = true
 		}
 		for range ss.batches {
 			ss.postPause = append(ss.postPause, pauses[t.Pick("postpause", 4, 4, 2, 2, 1)])
@@ -262,9 +273,25 @@ func worldC11(w *World) {
 				problem("close: status %d err %v", st, err)
 			}
 			time.Sleep(ss.afterClose)
-			if readPause > 0 {
-				// a slow backend needs time to read what was accepted before the close
-				time.Sleep(time.Duration(len(ss.cmsgs)+2) * readPause)
+			if readPause > 0 || bigPost {
+				// a slow backend (or a slow link) needs time to take in what was accepted
+				// before the close: wait for the backend to see the end, within ten minutes
+				for i := 0; i < 1200; i++ {
+					done := false
+					wb.mu.Lock()
+					for _, x := range wb.Sessions {
+						if strings.HasPrefix(x.Path, fmt.Sprintf("/sock%d?", ss.idx)) {
+							x.mu.Lock()
+							done = x.Closed
+							x.mu.Unlock()
+						}
+					}
+					wb.mu.Unlock()
+					if done {
+						break
+					}
+					time.Sleep(500 * time.Millisecond)
+				}
 			}
 		}
 	}
@@ -371,6 +398,9 @@ func worldC11(w *World) {
 		}
 		if nBrowsers > 1 {
 			w.Probe("concurrent_sessions")
+		}
+		if bigPost {
+			w.Probe("data_post_above_2_mib")
 		}
 	})
 }
